@@ -1,4 +1,5 @@
 import Ruint.Model.Shift
+import Ruint.Gen.WordsUint
 /-! Driver for C05: evaluates the model (`Ruint.Shift.*` on limb lists) and the spec (ℕ arithmetic).
 
 Case lines: `op bits value amount` — `value` hex `< 2^bits`; `amount` hex: a `usize` (methods), the
@@ -63,8 +64,9 @@ def handle (args : List String) (_impl : String) : String × String :=
     else if startsWith op "shr_" then
       (out (shrInt bits a s), toHex (sShr bits x s))
     else match op with
-    | "oshl" => (outF (overflowingShl bits a s), toHex (sShl bits x s) ++ " " ++ boolStr (sShlF bits x s))
-    | "oshr" => (outF (overflowingShr bits a s), toHex (sShr bits x s) ++ " " ++ boolStr (sShrF bits x s))
+    -- `oshl` / `oshr`: the methods GENERATED from the source (`Props/C05.gen_overflowing_shl_eq`, `…_shr_eq`)
+    | "oshl" => (outF (Ruint.Gen.uint_overflowing_shl (nlimbs bits + 1) bits (nlimbs bits) a s), toHex (sShl bits x s) ++ " " ++ boolStr (sShlF bits x s))
+    | "oshr" => (outF (Ruint.Gen.uint_overflowing_shr (nlimbs bits + 1) bits (nlimbs bits) a s), toHex (sShr bits x s) ++ " " ++ boolStr (sShrF bits x s))
     | "cshl" => (outO (checkedShl bits a s), sOpt (!sShlF bits x s) (sShl bits x s))
     | "cshr" => (outO (checkedShr bits a s), sOpt (!sShrF bits x s) (sShr bits x s))
     | "sshl" => (out (saturatingShl bits a s), toHex (if sShlF bits x s then 2 ^ bits - 1 else sShl bits x s))
